@@ -648,6 +648,8 @@ def rule_c16_r3(model: Model) -> RuleResult:
             (rf'^getattr\(self, {el}\.name\) < getattr\(\$other, {el}\.name\)$', 'SELF_LT'),
             (r"^\$other\.__class__\.__dict__\.get\('__origin__', \$other\.__class__\) == self\.__class__\.__dict__\.get\('__origin__', self\.__class__\)$",
              'ORIGIN_EQ'),
+            # ... or through a helper of the module that follows the chain of own-namespace origin markers (decided by C16-R6 / C16-R13)
+            (r"^pane\.classes\.\w*origin\w*\(\$other\.__class__\) == pane\.classes\.\w*origin\w*\(self\.__class__\)$", 'ORIGIN_EQ'),
             (r'^\$other\.__class__ == self\.__class__$', 'CLASS_EQ'),
             (r'^type\(\$other\) == type\(self\)$', 'CLASS_EQ'),
             (r'^type\(\$other\) is type\(self\)$', 'CLASS_EQ'),
